@@ -121,3 +121,14 @@ CLAIMED["C08"] = (
     "ws; descriptor limit 160; silent peers stay connected), histories accumulate on the same processes, and after each sequence a fresh TCP flow, a "
     "fresh datagram exchange and an exchange on the session the faults touched must work; TLC validates the recorded runs.",
     TB + "; Engine B (lib/faults.py); loopback; a canary gets two attempts", "5.8")
+CLAIMED["C16"] = (
+    "model_checking", "TLA+ Config: the README as a function Documented(cfg) and the start-up code as a code-shaped decision function Impl(cfg) (TLC: Conforms for every tuple of names, deviations), every tuple exported by TLC started on the real binaries, observed listeners and reference-client / real-peer exchanges validated by TLC against TraceConfig",
+    "TLC checks Config.tla for every tuple (side x protocol name x cipher name incl. the alias and undocumented names x mode name incl. undocumented ones x "
+    "credential form [password, 2022 key of exact / shorter / longer length, not base64, empty, user or identity key of wrong length] x link sections; 408 "
+    "tuples): the code-shaped decision function (serde names, shared Mode enum, enable_tcp / enable_udp / enable_quic, N-byte key buffer) conforms to the "
+    "README function, and QuicNoTcp / ShortKeyPadded / UdpModeExits - what the code used to do - break it. The real server or client binary is started on "
+    "every exported tuple (thorough: also every key length 0..2N+1, mangled documented names, passwords of eight lengths); bound TCP/UDP sockets are read "
+    "from /proc/net; for accepted tuples an independent reference client that knows only the cipher name and the password string must get an echo over "
+    "the server's TCP port and UDP port, and real peers with documented names must relay a TCP echo (every link incl. QUIC) and a datagram echo; for "
+    "refused tuples nothing may stay bound and nothing may panic. TLC validates every observation record (Conforms per record).",
+    TB + "; reference client = my offline reading of SIP004/SIP022/Trojan; how a refusal is reported is not judged", "5.16")
